@@ -15,9 +15,9 @@ From Coq Require Import List ZArith Bool Arith.
 From FV Require Import ListLemmas.
 Import ListNotations.
 
-Definition tok := nat.
-Definition pid := nat.
-Definition item := nat.
+Notation tok := nat (only parsing).
+Notation pid := nat (only parsing).
+Notation item := nat (only parsing).
 
 Inductive kind := KBuffer | KFleet | KBelt.
 Inductive mode := FIFO | LIFO.
